@@ -186,7 +186,7 @@ class FX(object):
     pass
 
 
-FIXTURE_NAMES = ['lit', 'I_shl', 'I_add', 'I_push', 'I_pop', 'I_moves', 'I_sete', 'I_div', 'w', 'T', 'U', 'Q', 'C', 'pc', 'regs', 'sys.path']
+FIXTURE_NAMES = ['lit', 'I_shl', 'I_add', 'I_push', 'I_pop', 'I_moves', 'I_sete', 'I_div', 'I_sse', 'I_rep67', 'K', 'w', 'T', 'U', 'Q', 'C', 'pc', 'regs', 'sys.path']
 
 
 def build_fixtures():
@@ -205,6 +205,9 @@ def build_fixtures():
     f.I_moves = dis(bytes.fromhex('8cc0'))   # mov eax, es
     f.I_sete = dis(bytes.fromhex('8ec3'))    # mov es, ebx
     f.I_div = dis(bytes.fromhex('f7f3'))     # div ebx
+    f.I_sse = dis(bytes.fromhex('f30f10c1'))  # movss xmm0, xmm1: the mnemonic depends on the mandatory prefix kept in .prefix
+    f.I_rep67 = dis(bytes.fromhex('67f3aa'))   # rep stosb with the address-size prefix
+    f.K = E.ExprInt32(0x10001)                 # a constant object the caller shares with the state of m2 (ecx)
     f.w = E.ExprId('w')
     f.T = E.ExprOp('+', E.ExprOp('+', S.eax, f.w), E.ExprInt32(0))    # shared tree over a module-level register and w
     f.U = E.ExprOp('+', f.w, E.ExprInt32(1))
@@ -221,6 +224,7 @@ def build_fixtures():
     m2.pool[S.edx] = E.ExprInt32(0)
     m2.pool[S.ebx] = E.ExprInt32(0)
     m2.pool[f.w] = E.ExprInt32(7)
+    m2.pool[S.ecx] = f.K
     m2.pool[S.es] = E.ExprInt(MI.uint16(0x23))
     # nodes whose memo attributes are watched (hidden state): every node of the fixture expressions,
     # the module-level registers, the initial pool values
@@ -241,7 +245,7 @@ def build_fixtures():
         if isinstance(e, E.ExprCompose):
             for a, _, _ in e.args:
                 walk(a)
-    for e in [f.w, f.T, f.U, f.Q, f.C, f.pc] + f.regs:
+    for e in [f.w, f.T, f.U, f.Q, f.C, f.pc, f.K] + f.regs:
         walk(e)
     for m in f.m[1:]:
         for k, v in sorted(m.pool.pool_id.items(), key=lambda kv: kv[0].name):
@@ -364,6 +368,8 @@ def _calls():
         'str_shl': ('pure', 0, lambda f: str(f.I_shl)),
         'att_shl': ('pure', 0, lambda f: f.I_shl.__str__('att_syntax')),
         'lift_shl': ('pure', 0, lambda f: lift(f, f.I_shl)),
+        'str_sse': ('pure', 0, lambda f: str(f.I_sse)),
+        'emul_rep67_m2': ('write', 2, lambda f: emul(f, 2, [f.I_rep67])),
         'simp_T': ('pure', 0, lambda f: H.expr_simp(f.T)),
         'simp_S': ('pure', 0, lambda f: H.expr_simp(H.expr_simp(f.T))),
         'simp_U': ('pure', 0, lambda f: H.expr_simp(f.U)),
